@@ -1,4 +1,398 @@
-import AwModel.Store.Sqlite
-/-! # C02 — placeholder while the refinement theorems are being written (no claims yet) -/
+import AwProofs.Lemmas.StoreOpsSqlite
+import AwProofs.Lemmas.StoreOpsMemory
+import AwProofs.Lemmas.StoreOpsPeewee
+import AwProofs.Lemmas.StoreOpsSpec
+/-!
+# C02 — Every backend behaves like one simple per-bucket event list under any history
+
+Property theorems only. Definitions (in `AwProofs/Lemmas/StoreOps.lean`):
+
+* `Op D` — the write API as data; `B.step s op` backend `B`'s state after `op`; `B.run` its fold;
+  `B.view s : View D` what a client reads back: bucket id ↦ (metadata, events in storage order, each
+  with `id := some i`).
+* `SpecStep k v v' op` — one step of the reference model, a plain list per bucket
+  (`AwModel/Store/Spec.lean`): insert appends with *some* id not live in the bucket, replace maps
+  over the list, delete filters it, replace-last rewrites the id of *some* newest event, insert-many
+  upserts then appends. `k : Kind` only fixes the backend's metadata conventions.
+* `Pre k v op` — the property's quantifier: the bucket exists; ids passed to replace / upsert are
+  live in that bucket; inserted events carry no id; replace-last only on a non-empty bucket (and,
+  for Peewee, whose SQL leaves ties among equal timestamps open, a hint — if given — names a newest
+  event: what the limit-1 read returned). Delete takes any id, live or not.
+* `SpecRun k v ops v'` — a reference history with `Pre` before every step;
+  `Admissible view step k s ops` — `Pre` holds on the backend's own view before every step.
+
+All theorems hold for every payload type `D`, every instant and duration (equal end instants,
+zero-length and negative-length events included), any number of buckets. Reads and counts are
+functions of the view (C03); lookup by id is `lookup_by_id_*`.
+-/
 namespace AwProofs.C02
+open Aw Aw.Store
+variable {D : Type}
+
+/-! ## Sqlite -/
+
+/-- one operation: the view after the step is a reference step of the view before -/
+theorem refines_sqlite {s : Sqlite.St D} (hI : Sqlite.Inv s) (op : Op D)
+    (hp : Pre .sqlite (Sqlite.view s) op) :
+    SpecStep .sqlite (Sqlite.view s) (Sqlite.view (Sqlite.step s op)) op := Sqlite.refines hI op hp
+
+/-- any history: the final view is the outcome of a reference history from the initial view -/
+theorem history_refines_sqlite {s : Sqlite.St D} (hI : Sqlite.Inv s) (ops : List (Op D))
+    (ha : Admissible Sqlite.view Sqlite.step .sqlite s ops) :
+    SpecRun .sqlite (Sqlite.view s) ops (Sqlite.view (Sqlite.run s ops)) :=
+  refines_foldl Sqlite.view Sqlite.step Sqlite.Inv .sqlite (fun _ op h => Sqlite.inv_step h op)
+    (fun _ op h hp => Sqlite.refines h op hp) ops s hI ha
+
+/-- live ids of a bucket are pairwise distinct and every stored event has one -/
+theorem ids_unique_sqlite {s : Sqlite.St D} (hI : Sqlite.Inv s) {b : String} {m : Meta}
+    {es : List (Ev D)} (hv : Sqlite.view s b = some (m, es)) :
+    (es.filterMap (·.id)).Nodup ∧ ∀ x ∈ es, x.id.isSome := Sqlite.ids_nodup hI hv
+
+/-- lookup by id is `find` in the bucket's list -/
+theorem lookup_by_id_sqlite {s : Sqlite.St D} (hI : Sqlite.Inv s) {b : String} {m : Meta}
+    {es : List (Ev D)} (hv : Sqlite.view s b = some (m, es)) (i : Int) :
+    Sqlite.getEvent s b i = es.find? (fun x => x.id = some i) := Sqlite.getEvent_eq hI hv i
+
+/-- the id handed out by an insert is not live in ANY bucket (and the view is the list append) -/
+theorem no_live_id_reuse_sqlite {s s' : Sqlite.St D} (hI : Sqlite.Inv s) {b : String} {e : Ev D}
+    {i : Int} (h : Sqlite.insertOne s b e = .ok (s', i)) :
+    (∀ b', i ∉ Spec.ids (Sqlite.view s) b') ∧ Sqlite.view s' = Spec.insert (Sqlite.view s) b i e :=
+  ⟨(Sqlite.insertOne_view' hI h).2.2, (Sqlite.insertOne_view' hI h).2.1⟩
+
+/-- replace-last on a non-empty bucket rewrites exactly one position of the list, the one holding a
+    newest event `t`; it keeps `t`'s id; `t` is the event the limit-1 read returns (for Sqlite's
+    unbounded read this needs `t` to end at or after the epoch: the read adds `endtime >= 0`);
+    no other event of the bucket and no other bucket changes -/
+theorem replaceLast_hits_limit1_sqlite {s : Sqlite.St D} (hI : Sqlite.Inv s) {b : String}
+    {m : Meta} {es : List (Ev D)} (hv : Sqlite.view s b = some (m, es)) (hne : es ≠ [])
+    (hint : Option Int) (e : Ev D) :
+    ∃ t i l1 l2, Spec.IsNewest es t ∧ t.id = some i ∧
+      (0 ≤ t.ts + t.dur → Sqlite.getEvents s b 1 none none = [t]) ∧
+      es = l1 ++ t :: l2 ∧ (∀ x ∈ l1 ++ l2, x.id ≠ some i) ∧
+      Sqlite.view (Sqlite.step s (.replaceLast b hint e)) b =
+        some (m, l1 ++ { e with id := some i } :: l2) ∧
+      ∀ b', b' ≠ b → Sqlite.view (Sqlite.step s (.replaceLast b hint e)) b' = Sqlite.view s b' := by
+  obtain ⟨t, ht, hread, hv'⟩ := Sqlite.replaceLast_view hI hv hne e
+  obtain ⟨hn, hsome⟩ := Sqlite.ids_nodup hI hv
+  obtain ⟨i, hi⟩ := Option.isSome_iff_exists.mp (hsome t ht.1)
+  obtain ⟨l1, l2, h1, h2, h3⟩ := Spec.replaceId_exact hv hn ht.1 hi e
+  refine ⟨t, i, l1, l2, ht, hi, hread, h1, h2, ?_,
+    fun b' hb => Sqlite.only_step hI (.replaceLast b hint e) b' hb⟩
+  show Sqlite.view (Sqlite.replaceLast s b e) b = _
+  rw [hv', hi]; exact h3
+
+/-- delete removes exactly the addressed event: a live id loses its one position, anything else
+    (an id that never existed, was deleted, or lives in another bucket) changes nothing; other
+    buckets are never touched -/
+theorem delete_exact_sqlite {s : Sqlite.St D} (hI : Sqlite.Inv s) {b : String} {m : Meta}
+    {es : List (Ev D)} (hv : Sqlite.view s b = some (m, es)) (i : Int) :
+    (∀ t ∈ es, t.id = some i → ∃ l1 l2, es = l1 ++ t :: l2 ∧ (∀ x ∈ l1 ++ l2, x.id ≠ some i) ∧
+      Sqlite.view (Sqlite.step s (.delete b i)) b = some (m, l1 ++ l2)) ∧
+    ((∀ x ∈ es, x.id ≠ some i) → Sqlite.view (Sqlite.step s (.delete b i)) = Sqlite.view s) ∧
+    ∀ b', b' ≠ b → Sqlite.view (Sqlite.step s (.delete b i)) b' = Sqlite.view s b' := by
+  have hv' : Sqlite.view (Sqlite.step s (.delete b i)) = Spec.delete (Sqlite.view s) b i :=
+    Sqlite.refines hI (.delete b i) (by show (Sqlite.view s b).isSome = true; rw [hv]; rfl)
+  refine ⟨?_, ?_, fun b' hb => Sqlite.only_step hI (.delete b i) b' hb⟩
+  · intro t ht hi
+    rw [hv']
+    exact Spec.delete_exact hv (Sqlite.ids_nodup hI hv).1 ht hi
+  · intro h
+    rw [hv']
+    apply Spec.delete_notLive
+    rw [Spec.mem_ids hv]
+    rintro ⟨x, hx, hxi⟩
+    exact h x hx hxi
+
+/-! ## Memory -/
+
+/-- one operation: the view after the step is a reference step of the view before -/
+theorem refines_memory {s : Memory.St D} (hI : Memory.Inv s) (op : Op D)
+    (hp : Pre .memory (Memory.view s) op) :
+    SpecStep .memory (Memory.view s) (Memory.view (Memory.step s op)) op := Memory.refines hI op hp
+
+/-- any history: the final view is the outcome of a reference history from the initial view -/
+theorem history_refines_memory {s : Memory.St D} (hI : Memory.Inv s) (ops : List (Op D))
+    (ha : Admissible Memory.view Memory.step .memory s ops) :
+    SpecRun .memory (Memory.view s) ops (Memory.view (Memory.run s ops)) :=
+  refines_foldl Memory.view Memory.step Memory.Inv .memory (fun _ op h => Memory.inv_step h op)
+    (fun _ op h hp => Memory.refines h op hp) ops s hI ha
+
+/-- live ids of a bucket are pairwise distinct and every stored event has one -/
+theorem ids_unique_memory {s : Memory.St D} (hI : Memory.Inv s) {b : String} {m : Meta}
+    {es : List (Ev D)} (hv : Memory.view s b = some (m, es)) :
+    (es.filterMap (·.id)).Nodup ∧ ∀ x ∈ es, x.id.isSome := Memory.ids_nodup hI hv
+
+/-- lookup by id is `find` in the bucket's list -/
+theorem lookup_by_id_memory {s : Memory.St D} (hI : Memory.Inv s) {b : String} {m : Meta}
+    {es : List (Ev D)} (hv : Memory.view s b = some (m, es)) (i : Int) :
+    Memory.getEvent s b i = .ok (es.find? (fun x => x.id = some i)) := Memory.getEvent_eq hI hv i
+
+/-- the id handed out by an insert is not live in the bucket (memory ids are per bucket) -/
+theorem no_live_id_reuse_memory {s s' : Memory.St D} (hI : Memory.Inv s) {b : String} {e : Ev D}
+    {oi : Option Int} (he : e.id = none) (h : Memory.insertOne s b e = .ok (s', oi)) :
+    ∃ i, oi = some i ∧ i ∉ Spec.ids (Memory.view s) b ∧
+      Memory.view s' = Spec.insert (Memory.view s) b i e := by
+  obtain ⟨i, h1, _, h2, h3⟩ := Memory.insertOne_view' hI he h
+  exact ⟨i, h1, h3, h2⟩
+
+/-- replace-last on a non-empty bucket rewrites exactly one position of the list, the one holding a
+    newest event `t`, which is the event the limit-1 read returns; it keeps `t`'s id; no other event of
+    the bucket and no other bucket changes -/
+theorem replaceLast_hits_limit1_memory {s : Memory.St D} (hI : Memory.Inv s) {b : String}
+    {m : Meta} {es : List (Ev D)} (hv : Memory.view s b = some (m, es)) (hne : es ≠ [])
+    (hint : Option Int) (e : Ev D) :
+    ∃ t i l1 l2, Spec.IsNewest es t ∧ t.id = some i ∧
+      Memory.getEvents s b 1 none none = .ok [t] ∧
+      es = l1 ++ t :: l2 ∧ (∀ x ∈ l1 ++ l2, x.id ≠ some i) ∧
+      Memory.view (Memory.step s (.replaceLast b hint e)) b =
+        some (m, l1 ++ { e with id := some i } :: l2) ∧
+      ∀ b', b' ≠ b → Memory.view (Memory.step s (.replaceLast b hint e)) b' = Memory.view s b' := by
+  obtain ⟨t, s', ht, hread, hs', hv'⟩ := Memory.replaceLast_view hI hv hne e
+  obtain ⟨hn, hsome⟩ := Memory.ids_nodup hI hv
+  obtain ⟨i, hi⟩ := Option.isSome_iff_exists.mp (hsome t ht.1)
+  obtain ⟨l1, l2, h1, h2, h3⟩ := Spec.replaceId_exact hv hn ht.1 hi e
+  refine ⟨t, i, l1, l2, ht, hi, hread, h1, h2, ?_,
+    fun b' hb => Memory.only_step hI (.replaceLast b hint e) b' hb⟩
+  simp only [Memory.step, hs']
+  rw [hv', hi]; exact h3
+
+/-- delete removes exactly the addressed event: a live id loses its one position, anything else
+    changes nothing; other buckets are never touched -/
+theorem delete_exact_memory {s : Memory.St D} (hI : Memory.Inv s) {b : String} {m : Meta}
+    {es : List (Ev D)} (hv : Memory.view s b = some (m, es)) (i : Int) :
+    (∀ t ∈ es, t.id = some i → ∃ l1 l2, es = l1 ++ t :: l2 ∧ (∀ x ∈ l1 ++ l2, x.id ≠ some i) ∧
+      Memory.view (Memory.step s (.delete b i)) b = some (m, l1 ++ l2)) ∧
+    ((∀ x ∈ es, x.id ≠ some i) → Memory.view (Memory.step s (.delete b i)) = Memory.view s) ∧
+    ∀ b', b' ≠ b → Memory.view (Memory.step s (.delete b i)) b' = Memory.view s b' := by
+  have hv' : Memory.view (Memory.step s (.delete b i)) = Spec.delete (Memory.view s) b i :=
+    Memory.refines hI (.delete b i) (by show (Memory.view s b).isSome = true; rw [hv]; rfl)
+  refine ⟨?_, ?_, fun b' hb => Memory.only_step hI (.delete b i) b' hb⟩
+  · intro t ht hi
+    rw [hv']
+    exact Spec.delete_exact hv (Memory.ids_nodup hI hv).1 ht hi
+  · intro h
+    rw [hv']
+    apply Spec.delete_notLive
+    rw [Spec.mem_ids hv]
+    rintro ⟨x, hx, hxi⟩
+    exact h x hx hxi
+
+/-! ## Peewee -/
+
+/-- one operation: the view after the step is a reference step of the view before -/
+theorem refines_peewee {s : Peewee.St D} (hI : Peewee.Inv s) (op : Op D)
+    (hp : Pre .peewee (Peewee.view s) op) :
+    SpecStep .peewee (Peewee.view s) (Peewee.view (Peewee.step s op)) op := Peewee.refines hI op hp
+
+/-- any history: the final view is the outcome of a reference history from the initial view -/
+theorem history_refines_peewee {s : Peewee.St D} (hI : Peewee.Inv s) (ops : List (Op D))
+    (ha : Admissible Peewee.view Peewee.step .peewee s ops) :
+    SpecRun .peewee (Peewee.view s) ops (Peewee.view (Peewee.run s ops)) :=
+  refines_foldl Peewee.view Peewee.step Peewee.Inv .peewee (fun _ op h => Peewee.inv_step h op)
+    (fun _ op h hp => Peewee.refines h op hp) ops s hI ha
+
+/-- live ids of a bucket are pairwise distinct and every stored event has one -/
+theorem ids_unique_peewee {s : Peewee.St D} (hI : Peewee.Inv s) {b : String} {m : Meta}
+    {es : List (Ev D)} (hv : Peewee.view s b = some (m, es)) :
+    (es.filterMap (·.id)).Nodup ∧ ∀ x ∈ es, x.id.isSome := Peewee.ids_nodup hI hv
+
+/-- lookup by id is `find` in the bucket's list -/
+theorem lookup_by_id_peewee {s : Peewee.St D} (hI : Peewee.Inv s) {b : String} {m : Meta}
+    {es : List (Ev D)} (hv : Peewee.view s b = some (m, es)) (i : Int) :
+    Peewee.getEvent s b i = .ok (es.find? (fun x => x.id = some i)) := Peewee.getEvent_eq hI hv
+
+/-- the id handed out by an insert is not live in ANY bucket -/
+theorem no_live_id_reuse_peewee {s s' : Peewee.St D} (hI : Peewee.Inv s) {b : String} {e : Ev D}
+    {oi : Option Int} (he : e.id = none) (h : Peewee.insertOne s b e = .ok (s', oi)) :
+    ∃ i, oi = some i ∧ (∀ b', i ∉ Spec.ids (Peewee.view s) b') ∧
+      Peewee.view s' = Spec.insert (Peewee.view s) b i e := by
+  obtain ⟨i, h1, _, h2, h3⟩ := Peewee.insertOne_view hI he h
+  exact ⟨i, h1, h3, h2⟩
+
+/-- the limit-1 read returns a newest event `t` (id `i`); replace-last with that id as hint — or
+    without a hint — is accepted and rewrites exactly `t`'s position, keeping the id; nothing else
+    in the bucket and no other bucket changes -/
+theorem replaceLast_hits_limit1_peewee {s : Peewee.St D} (hI : Peewee.Inv s) {b : String}
+    {m : Meta} {es : List (Ev D)} (hv : Peewee.view s b = some (m, es)) (hne : es ≠ []) (e : Ev D) :
+    ∃ t i l1 l2, Spec.IsNewest es t ∧ t.id = some i ∧
+      Peewee.getEvents s b 1 none none = .ok [t] ∧
+      es = l1 ++ t :: l2 ∧ (∀ x ∈ l1 ++ l2, x.id ≠ some i) ∧
+      ∀ hint, hint = some i ∨ hint = none →
+        Peewee.view (Peewee.step s (.replaceLast b hint e)) b =
+          some (m, l1 ++ { e with id := some i } :: l2) ∧
+        ∀ b', b' ≠ b → Peewee.view (Peewee.step s (.replaceLast b hint e)) b' = Peewee.view s b' := by
+  obtain ⟨t, i, hread, hi, hfm, _, hnone⟩ := Peewee.getEvents_one_first hI hv hne
+  have ht : Spec.IsNewest es t := ⟨hfm.mem, hfm.max⟩
+  obtain ⟨hn, _⟩ := Peewee.ids_nodup hI hv
+  obtain ⟨l1, l2, h1, h2, h3⟩ := Spec.replaceId_exact hv hn ht.1 hi e
+  refine ⟨t, i, l1, l2, ht, hi, hread, h1, h2, ?_⟩
+  intro hint hh
+  refine ⟨?_, fun b' hb => Peewee.only_step hI (.replaceLast b hint e) b' hb⟩
+  have key : ∃ s', Peewee.replaceLast s b hint e = .ok (some (s', i)) := by
+    rcases hh with rfl | rfl
+    · exact Peewee.replaceLast_accepts hI hv ht hi e
+    · exact hnone e
+  obtain ⟨s', hs'⟩ := key
+  simp only [Peewee.step, hs']
+  rw [Peewee.replaceLast_some_view hI hs']; exact h3
+
+/-- any accepted replace-last (whatever the hint) rewrites exactly one position, holding a newest
+    event, and keeps its id -/
+theorem replaceLast_exact_peewee {s s' : Peewee.St D} (hI : Peewee.Inv s) {b : String}
+    {m : Meta} {es : List (Ev D)} (hv : Peewee.view s b = some (m, es)) {hint : Option Int}
+    {e : Ev D} {j : Int} (h : Peewee.replaceLast s b hint e = .ok (some (s', j))) :
+    ∃ t l1 l2, Spec.IsNewest es t ∧ t.id = some j ∧ (∀ h', hint = some h' → h' = j) ∧
+      es = l1 ++ t :: l2 ∧ (∀ x ∈ l1 ++ l2, x.id ≠ some j) ∧
+      Peewee.view s' b = some (m, l1 ++ { e with id := some j } :: l2) := by
+  obtain ⟨t, ht, hj, hh, hv'⟩ := Peewee.replaceLast_hint_view hI hv h
+  obtain ⟨l1, l2, h1, h2, h3⟩ := Spec.replaceId_exact hv (Peewee.ids_nodup hI hv).1 ht.1 hj e
+  exact ⟨t, l1, l2, ht, hj, hh, h1, h2, by rw [hv']; exact h3⟩
+
+/-- delete removes exactly the addressed event: a live id loses its one position, anything else
+    (an id that never existed, was deleted, or lives in another bucket) changes nothing; other
+    buckets are never touched -/
+theorem delete_exact_peewee {s : Peewee.St D} (hI : Peewee.Inv s) {b : String} {m : Meta}
+    {es : List (Ev D)} (hv : Peewee.view s b = some (m, es)) (i : Int) :
+    (∀ t ∈ es, t.id = some i → ∃ l1 l2, es = l1 ++ t :: l2 ∧ (∀ x ∈ l1 ++ l2, x.id ≠ some i) ∧
+      Peewee.view (Peewee.step s (.delete b i)) b = some (m, l1 ++ l2)) ∧
+    ((∀ x ∈ es, x.id ≠ some i) → Peewee.view (Peewee.step s (.delete b i)) = Peewee.view s) ∧
+    ∀ b', b' ≠ b → Peewee.view (Peewee.step s (.delete b i)) b' = Peewee.view s b' := by
+  have hv' : Peewee.view (Peewee.step s (.delete b i)) = Spec.delete (Peewee.view s) b i :=
+    Peewee.refines hI (.delete b i) (by show (Peewee.view s b).isSome = true; rw [hv]; rfl)
+  refine ⟨?_, ?_, fun b' hb => Peewee.only_step hI (.delete b i) b' hb⟩
+  · intro t ht hi
+    rw [hv']
+    exact Spec.delete_exact hv (Peewee.ids_nodup hI hv).1 ht hi
+  · intro h
+    rw [hv']
+    apply Spec.delete_notLive
+    rw [Spec.mem_ids hv]
+    rintro ⟨x, hx, hxi⟩
+    exact h x hx hxi
+
+/-! ## the three backends are interchangeable -/
+
+/-- Started from states with the same view and driven by the same admissible history, all three
+    backends end in views that are outcomes of the SAME reference history from the SAME initial
+    view; they can differ only where the reference model leaves a choice (which fresh ids an insert
+    gets, which of several newest events with equal timestamps replace-last rewrites) and in the
+    backends' metadata conventions (`Kind.stored`, `Kind.apply`). -/
+theorem backends_interchangeable {s1 : Sqlite.St D} {s2 : Memory.St D} {s3 : Peewee.St D}
+    (h1 : Sqlite.Inv s1) (h2 : Memory.Inv s2) (h3 : Peewee.Inv s3) {v : View D}
+    (e1 : Sqlite.view s1 = v) (e2 : Memory.view s2 = v) (e3 : Peewee.view s3 = v)
+    (ops : List (Op D))
+    (a1 : Admissible Sqlite.view Sqlite.step .sqlite s1 ops)
+    (a2 : Admissible Memory.view Memory.step .memory s2 ops)
+    (a3 : Admissible Peewee.view Peewee.step .peewee s3 ops) :
+    SpecRun .sqlite v ops (Sqlite.view (Sqlite.run s1 ops)) ∧
+    SpecRun .memory v ops (Memory.view (Memory.run s2 ops)) ∧
+    SpecRun .peewee v ops (Peewee.view (Peewee.run s3 ops)) :=
+  ⟨e1 ▸ history_refines_sqlite h1 ops a1, e2 ▸ history_refines_memory h2 ops a2,
+    e3 ▸ history_refines_peewee h3 ops a3⟩
+
+/-- Where the reference model leaves no choice before any step (`AdmissibleDet`: no id-less
+    inserts, and replace-last only on buckets whose newest events all have one id, i.e. no tie
+    among equal timestamps; by `admissibleDet_of_det` in particular every admissible history of
+    `Op.Det` operations) the two SQL backends end in EQUAL views: metadata and events, with ids, of
+    every bucket -/
+theorem backends_equal_sqlite_peewee {s1 : Sqlite.St D} {s3 : Peewee.St D}
+    (h1 : Sqlite.Inv s1) (h3 : Peewee.Inv s3) (e : Sqlite.view s1 = Peewee.view s3)
+    (ops : List (Op D))
+    (a1 : AdmissibleDet Sqlite.view Sqlite.step .sqlite s1 ops)
+    (a3 : Admissible Peewee.view Peewee.step .peewee s3 ops) :
+    Sqlite.view (Sqlite.run s1 ops) = Peewee.view (Peewee.run s3 ops) :=
+  lockstep_eq Sqlite.view Sqlite.step Sqlite.Inv Peewee.view Peewee.step Peewee.Inv .sqlite .peewee
+    (fun _ _ _ h => SpecStep.peewee_iff_sqlite.mp h)
+    (fun _ op h => Sqlite.inv_step h op) (fun _ op h => Peewee.inv_step h op)
+    (fun _ op h hp => Sqlite.refines h op hp) (fun _ op h hp => Peewee.refines h op hp)
+    ops s1 s3 h1 h3 e a1 a3
+
+/-- Under the same condition all three backends end with EQUAL event contents (ids, instants,
+    durations, data, order) in every bucket; the memory backend's metadata may differ by its
+    name / truthiness conventions, which is C05's subject -/
+theorem backends_equal_events {s1 : Sqlite.St D} {s2 : Memory.St D} {s3 : Peewee.St D}
+    (h1 : Sqlite.Inv s1) (h2 : Memory.Inv s2) (h3 : Peewee.Inv s3)
+    (e12 : evView (Sqlite.view s1) = evView (Memory.view s2))
+    (e13 : evView (Sqlite.view s1) = evView (Peewee.view s3))
+    (ops : List (Op D))
+    (a1 : AdmissibleDet Sqlite.view Sqlite.step .sqlite s1 ops)
+    (a2 : Admissible Memory.view Memory.step .memory s2 ops)
+    (a3 : Admissible Peewee.view Peewee.step .peewee s3 ops) :
+    evView (Sqlite.view (Sqlite.run s1 ops)) = evView (Memory.view (Memory.run s2 ops)) ∧
+    evView (Sqlite.view (Sqlite.run s1 ops)) = evView (Peewee.view (Peewee.run s3 ops)) :=
+  ⟨lockstep_events Sqlite.view Sqlite.step Sqlite.Inv Memory.view Memory.step Memory.Inv
+      .sqlite .memory (fun _ op h => Sqlite.inv_step h op) (fun _ op h => Memory.inv_step h op)
+      (fun _ op h hp => Sqlite.refines h op hp) (fun _ op h hp => Memory.refines h op hp)
+      ops s1 s2 h1 h2 e12 a1 a2,
+   lockstep_events Sqlite.view Sqlite.step Sqlite.Inv Peewee.view Peewee.step Peewee.Inv
+      .sqlite .peewee (fun _ op h => Sqlite.inv_step h op) (fun _ op h => Peewee.inv_step h op)
+      (fun _ op h hp => Sqlite.refines h op hp) (fun _ op h hp => Peewee.refines h op hp)
+      ops s1 s3 h1 h3 e13 a1 a3⟩
+
+/-! ## non-vacuity: admissible histories on concrete two-bucket states (coinciding instants,
+interleaved ids), exercising every kind of operation -/
+
+/-- an admissible Sqlite history: insert, replace-last on tied newest events, delete of an id that
+    never existed, replace, bulk insert with an upsert; its refinement -/
+example :
+    let ops : List (Op Unit) :=
+      [.insert "a" Sqlite.exEv, .replaceLast "a" none Sqlite.exEv, .delete "b" 99,
+       .replace "a" 3 Sqlite.exEv, .insertMany "a" [Sqlite.exEv, { Sqlite.exEv with id := some 1 }]]
+    Admissible Sqlite.view Sqlite.step .sqlite Sqlite.exS ops ∧
+    SpecRun .sqlite (Sqlite.view Sqlite.exS) ops (Sqlite.view (Sqlite.run Sqlite.exS ops)) := by
+  intro ops
+  have ha : Admissible Sqlite.view Sqlite.step .sqlite Sqlite.exS ops :=
+    ⟨⟨rfl, rfl⟩, ⟨_, _, rfl, by decide, fun h => by cases h⟩, rfl, ⟨rfl, by decide⟩,
+     ⟨rfl, by decide⟩, trivial⟩
+  exact ⟨ha, history_refines_sqlite Sqlite.exS_inv ops ha⟩
+
+/-- an admissible Peewee history; the hint 3 names the second of two tied newest events -/
+example : Admissible Peewee.view Peewee.step .peewee Peewee.Example.s0
+    [.replaceLast "a" (some 3) Peewee.Example.e0, .insert "b" Peewee.Example.e0, .delete "a" 1] :=
+  ⟨⟨_, _, rfl, by decide, fun _ h hh => ⟨⟨some 3, 10, 1, 9⟩, by
+      injection hh with hh; subst hh; exact ⟨⟨by decide, by decide⟩, rfl⟩⟩⟩,
+   ⟨rfl, rfl⟩, rfl, trivial⟩
+
+/-- an admissible Memory history -/
+example : Admissible Memory.view Memory.step .memory Memory.exSt
+    [.replaceLast "b" none ⟨none, 9, 9, 9⟩, .insert "a" ⟨none, 1, 1, 1⟩, .delete "b" 1,
+     .create "c" Memory.exMeta] :=
+  ⟨⟨_, _, rfl, by decide, fun h => by cases h⟩, ⟨rfl, rfl⟩, rfl, rfl, trivial⟩
+
+/-- a history that leaves the reference model no choice: replace-last on a bucket with one newest
+    event, delete, upsert -/
+example : AdmissibleDet Sqlite.view Sqlite.step .sqlite Sqlite.exS
+    [.replaceLast "b" none Sqlite.exEv, .delete "a" 1,
+     .insertMany "a" [{ Sqlite.exEv with id := some 3 }]] := by
+  refine ⟨⟨_, _, rfl, by decide, fun h => by cases h⟩, ?_, rfl, trivial, ⟨rfl, by decide⟩,
+    fun e he => by rw [List.mem_singleton.mp he]; rfl, trivial⟩
+  intro m es t t' hv ht ht'
+  injection hv with hv
+  injection hv with _ hes
+  subst hes
+  have e1 := List.mem_singleton.mp ht.1
+  have e2 := List.mem_singleton.mp ht'.1
+  rw [e1, e2]
+
+/-- why `replaceLast_hits_limit1_sqlite` carries `0 ≤ t.ts + t.dur`: Sqlite's unbounded read adds
+    `endtime >= 0`, so an event that ends before the epoch is stored (and is what replace-last
+    rewrites) but is not returned by the limit-1 read -/
+example : Sqlite.Inv Sqlite.cexLast ∧
+    Sqlite.view Sqlite.cexLast "a" = some (default, [{ id := some 1, ts := -10, dur := 5, data := () }]) ∧
+    Sqlite.getEvents Sqlite.cexLast "a" 1 none none = [] :=
+  ⟨Sqlite.cexLast_inv, Sqlite.replaceLast_read_counterexample⟩
+
+/-- why `Pre` asks that ids carried into insert-many are live: in the memory backend a batch
+    `[new, carrying id 0]` into an empty bucket gives the new event id 0 and then overwrites it -/
+example : Memory.insertMany Memory.cexSt "b" [Memory.cexNew, Memory.cexCarry] =
+    .ok [("b", (Memory.storedMeta "b" Memory.cexMeta, [⟨some 0, 0, 0, 2⟩]))] := rfl
+
+example := replaceLast_hits_limit1_sqlite Sqlite.exS_inv (b := "a") rfl (by decide) none Sqlite.exEv
+example := delete_exact_sqlite Sqlite.exS_inv (b := "a") rfl 3
+example := replaceLast_hits_limit1_memory Memory.exSt_inv (b := "b") rfl (by decide) none ⟨none, 9, 9, 9⟩
+example := delete_exact_memory Memory.exSt_inv (b := "b") rfl 1
+example := replaceLast_hits_limit1_peewee Peewee.Example.inv0 Peewee.Example.view_a (by decide)
+  Peewee.Example.e0
+example := delete_exact_peewee Peewee.Example.inv0 Peewee.Example.view_a 3
+
 end AwProofs.C02
